@@ -3,7 +3,7 @@
 use crate::{
     sx::{Fixed, Init, Shape, Val},
     ux::{anomaly, Fx, Mode, RunInit, Ux, WithInit, ANOM, BOUNDS},
-    ux_enum, ux_fixed, ux_struct,
+    ux_enum, ux_fixed, ux_generic_struct, ux_struct,
 };
 use hx_common::guard::GuardBuf;
 use star_frame::{
@@ -31,6 +31,27 @@ impl StarFrameProgram for Program2 {
     type InstructionSet = ();
     type AccountDiscriminant = [u8; 2];
     const ID: Pubkey = pubkey!("HxCodec222222222222222222222222222222222222");
+}
+
+/// Programs whose account discriminant TYPE has an alignment > 1 (u16 / u32 / u64): a client helper
+/// that reinterprets the first bytes of the account data as that type would depend on the address.
+pub struct Program16;
+impl StarFrameProgram for Program16 {
+    type InstructionSet = ();
+    type AccountDiscriminant = u16;
+    const ID: Pubkey = pubkey!("HxCodec333333333333333333333333333333333333");
+}
+pub struct Program32;
+impl StarFrameProgram for Program32 {
+    type InstructionSet = ();
+    type AccountDiscriminant = u32;
+    const ID: Pubkey = pubkey!("HxCodec444444444444444444444444444444444444");
+}
+pub struct Program64;
+impl StarFrameProgram for Program64 {
+    type InstructionSet = ();
+    type AccountDiscriminant = u64;
+    const ID: Pubkey = pubkey!("HxCodec555555555555555555555555555555555555");
 }
 
 // ------------------------------------------------------------------------------------------------
@@ -159,6 +180,18 @@ mod generic_impls {
         }
     }
 }
+
+// generic structs with and without the phantom marker; bool / checked enum first, middle and last
+ux_generic_struct!(GP1, GP1Owned, GP1Sized, args [], sized { first: bool, a: A, last: Color });
+ux_generic_struct!(GN1, GN1Owned, GN1Sized, args [, skip_phantom_generics], sized { first: bool, a: A, last: Color });
+ux_generic_struct!(GP2, GP2Owned, GP2Sized, args [], sized { a: A, mid: bool, last: bool });
+ux_generic_struct!(GN2, GN2Owned, GN2Sized, args [, skip_phantom_generics], sized { a: A, mid: bool, last: bool });
+ux_generic_struct!(GN3, GN3Owned, GN3Sized, args [, skip_phantom_generics], sized { first: Color, mid: Rec1, a: A });
+
+// accounts of programs with aligned discriminant types
+ux_struct!(Acct16, Acct16Owned, Acct16Init, args [, program_account, program = Program16, discriminant = 0xBEEFu16], fields { items: List<u8, u8>, tail: RemainingBytes });
+ux_struct!(Acct32, Acct32Owned, Acct32Init, args [, program_account, program = Program32, discriminant = 0xA1B2C3D4u32], fields { names: UnsizedList<UnsizedString<u8>> });
+ux_struct!(Acct64, Acct64Owned, Acct64Init, args [, program_account, program = Program64, discriminant = 0x1122334455667788u64], fields { e: E1, m: Map<u8, bool, u8> });
 
 // program accounts
 #[unsized_type(program_account, skip_idl)]
@@ -515,7 +548,18 @@ impl<T: Ux + ProgramAccount + ?Sized> DynType for AcctEntry<T> {
     }
     fn des_account(&self, bytes: &[u8]) -> Option<Result<Val, String>> {
         let g = GuardAccess::new(bytes);
-        Some(<T as DeserializeAccount>::deserialize_account(g.buf.slice()).map(|o| T::to_val(&o)).map_err(class_of))
+        let r = <T as DeserializeAccount>::deserialize_account(g.buf.slice()).map(|o| T::to_val(&o)).map_err(class_of);
+        // the answer must not depend on where the account bytes start: all 8 offsets of an 8-aligned buffer
+        let mut backing = vec![0u64; bytes.len() / 8 + 3];
+        let raw: &mut [u8] = bytemuck::cast_slice_mut(&mut backing);
+        for k in 0..8 {
+            raw[k..k + bytes.len()].copy_from_slice(bytes);
+            let rk = crate::hx_catch(|| <T as DeserializeAccount>::deserialize_account(&raw[k..k + bytes.len()]).map(|o| T::to_val(&o)).map_err(class_of));
+            if rk != r {
+                anomaly("alignment_dependent_result");
+            }
+        }
+        Some(r)
     }
 }
 
@@ -564,7 +608,19 @@ pub fn registry() -> Registry {
         e!("T34", UnsizedMap<u8, E1>),
         e!("T35", Set<PackedValue<u16>, u64>),
         e!("T36", Map<u8, PackedValue<u32>, u16>),
+        e!("T37", GP1<u8>),
+        e!("T38", GP1<bool>),
+        e!("T39", GN1<u8>),
+        e!("T40", GN1<bool>),
+        e!("T41", GP2<bool>),
+        e!("T42", GN2<bool>),
+        e!("T43", GN2<Color>),
+        e!("T44", GN3<bool>),
+        e!("T45", UnsizedList<GN1<bool>>),
         ("A01", Box::new(AcctEntry::<Acct1>::new()) as Box<dyn DynType>),
+        ("A03", Box::new(AcctEntry::<Acct16>::new()) as Box<dyn DynType>),
+        ("A04", Box::new(AcctEntry::<Acct32>::new()) as Box<dyn DynType>),
+        ("A05", Box::new(AcctEntry::<Acct64>::new()) as Box<dyn DynType>),
         ("A02", Box::new(AcctEntry::<Acct2>::new()) as Box<dyn DynType>),
     ]
 }
